@@ -1029,6 +1029,98 @@ def held_failures(obs) -> list:
                     f"{' ' + str(obs['log'][b].get('out')) if b < len(obs['log']) else ''})"} for a, b in obs.get("held_changed", [])[:3]]
 
 
+def _need_tracked(vd) -> bool:
+    return bool(vd["cols"]) and "tracked" not in vd["cols"] and "tracked" not in pred_cols(vd["q"])
+
+
+def read_failures(case, obs) -> list:
+    """C12's own statement evaluated on every read and sub-view request of a log: reference filter over the full table the
+    reader could see, the view's columns, the table's values and dtypes; sub-view accepted iff non-empty subset"""
+    fails = []
+    vdefs = view_defs(case, obs)
+    known_views = dict(view_defs(case, {"log": []}))
+
+    def fail(sig, msg):
+        fails.append({"sig": sig, "msg": msg})
+
+    for i, e, prev, cr in walk(obs):
+        if e["t"] == "view" and e.get("out") == "ok":
+            known_views[e["id"]] = {"cols": list(e["cols"]), "q": e["q"]}
+        if e["t"] == "sub":
+            parent = known_views.get(e["parent"])
+            if parent is not None and prev is not None:
+                pc = parent["cols"] or [c[0] for c in prev["cols"]]
+                good = bool(e["cols"]) and all(c in pc for c in e["cols"])
+                if good and e["out"] != "ok":
+                    fail("subview-rejected-good", f"log {i}: subview {e['cols']} of view {e['parent']} {pc} refused ({e['out']})")
+                if not good and e["out"] == "ok":
+                    fail("subview-accepted-bad", f"log {i}: subview {e['cols']} of view {e['parent']} {pc} accepted")
+                if e["out"] == "ok":
+                    known_views[e["id"]] = {"cols": list(e["cols"]), "q": parent["q"], "parent": e["parent"]}
+            if table_diff(prev, e.get("table")):
+                fail("read-changed-table", f"log {i} sub: {table_diff(prev, e.get('table'))}")
+        if e["t"] != "get":
+            continue
+        t = prev if prev is not None else {"rows": [], "cols": []}
+        d = table_diff(t, e["table"] if e["table"] is not None else {"rows": [], "cols": []})
+        if d:
+            fail("read-changed-table", f"log {i} get (frame overwritten in place afterwards: {bool(e.get('mutated'))}): {d}")
+        vd = vdefs.get(e["view"])
+        if vd is None:
+            continue
+        tcols = [c[0] for c in t["cols"]]
+        vcols = vd["cols"] or tcols
+        unknown = [r for r in e["idx"] if r not in t["rows"]]
+        missing = [c for c in vcols if c not in tcols]
+        qmissing = [c for c in (pred_cols(vd["q"]) | pred_cols(e["q"])) if c not in tcols]
+        desc = f"log {i} get view {e['view']} cols {vd['cols']} query {pred_query(vd['q'])!r} idx {e['idx']} extra {pred_query(e['q'])!r}"
+        if missing:
+            if e["out"] == "ok":
+                fail("missing-column-silently-omitted", f"{desc}: columns {missing} do not exist, yet the read returned {e['frame']}")
+            continue
+        if unknown:
+            if e["out"] == "ok":
+                fail("unknown-label-accepted", f"{desc}: labels {unknown} do not exist, yet the read returned rows {e['frame']['rows']}")
+            continue
+        if qmissing or (_need_tracked(vd) and "tracked" not in tcols):
+            continue        # the query cannot be evaluated; the property has no opinion on the outcome class
+        if e["out"] != "ok":
+            fail("good-read-refused", f"{desc}: {e['out']}")
+            continue
+        nt = _need_tracked(vd)
+
+        def keep(r):
+            tr = cell(t, r, "tracked") == "b1"
+            return pred_eval(vd["q"], t, r) and pred_eval(e["q"], t, r) and (tr or not nt)
+
+        want = [r for r in e["idx"] if keep(r)] if e["idx"] else []
+        got = e["frame"]
+        if got["rows"] != want:
+            sig = "get-wrong-rows"
+            extra_rows = [r for r in got["rows"] if r not in want]
+            if nt and extra_rows and all(cell(t, r, "tracked") != "b1" for r in extra_rows):
+                sig = "untracked-returned"
+            elif sorted(got["rows"]) == sorted(want):
+                sig = "get-wrong-order"
+            fail(sig, f"{desc}: returned rows {got['rows']}, expected {want} (tracked: "
+                      f"{[r for r in t['rows'] if cell(t, r, 'tracked') == 'b1']})")
+            continue
+        gcols = [c[0] for c in got["cols"]]
+        if (gcols != vcols) if vd["cols"] else (sorted(gcols) != sorted(vcols)):
+            fail("get-wrong-columns" if vd["cols"] else "whole-table-view-columns",
+                 f"{desc}: returned columns {gcols}, " + (f"the view has {vcols}" if vd["cols"] else f"the table currently has {vcols}"))
+            continue
+        for name, dt, vals in got["cols"]:
+            tc = col_of(t, name)
+            if dt != tc[1]:
+                fail("get-wrong-dtype", f"{desc}: column {name} is {dt}, the table has {tc[1]}")
+            for r, v in zip(got["rows"], vals):
+                if norm_tok(v) != norm_tok(cell(t, r, name)):
+                    fail("get-wrong-values", f"{desc}: cell ({r},{name}) is {v}, the table has {cell(t, r, name)}")
+                    break
+    return fails
+
+
 def form_tags(case, obs) -> list:
     """which containers, dtypes, index kinds, call forms, handles, performers and moments the case exercised"""
     t = []
